@@ -9,10 +9,18 @@ def verdict : Option String → String
   | none => "ok"
   | some why => "bad " ++ why
 
-def pool (poison : String) : Option Mem := do
-  let p ← fromHex poison
-  match p with
-  | [b] => some (List.replicate 1522 b)
+/-- `<poison>` = pooled 1522-byte buffer filled with that byte; `<poison>:<cap>` = buffer of `cap` bytes -/
+def pool (spec : String) : Option Mem := do
+  match spec.splitOn ":" with
+  | [poison] =>
+    match ← fromHex poison with
+    | [b] => some (List.replicate 1522 b)
+    | _ => none
+  | [poison, cap] =>
+    let n ← cap.toNat?
+    match ← fromHex poison with
+    | [b] => some (List.replicate n b)
+    | _ => none
   | _ => none
 
 def boolOf (s : String) : Option Bool := if s == "1" then some true else if s == "0" then some false else none
@@ -35,6 +43,22 @@ def handle (cmd : String) (args : List String) : Option String :=
     let g ← pool po; let hm ← fromHex hm; let dst ← fromHex dst
     let sm ← fromHex sm; let si ← fromHex si; let tm ← fromHex tm; let ti ← fromHex ti
     some (res (sessionArpRequest g hm dst sm si tm ti))
+  | "compose-icmp4", [po, sm, dm, ttl, si, di, id, seq, d] => do
+    let g ← pool po; let sm ← fromHex sm; let dm ← fromHex dm; let ttl ← ttl.toNat?
+    let si ← fromHex si; let di ← fromHex di; let id ← id.toNat?; let seq ← seq.toNat?; let d ← fromHex d
+    some (res (composeICMP4 g sm dm (UInt8.ofNat ttl) si di (encodeICMPEcho 8 0 id seq d)))
+  | "compose-icmp6", [po, sm, dm, ttl, si, di, id, seq, d] => do
+    let g ← pool po; let sm ← fromHex sm; let dm ← fromHex dm; let ttl ← ttl.toNat?
+    let si ← fromHex si; let di ← fromHex di; let id ← id.toNat?; let seq ← seq.toNat?; let d ← fromHex d
+    some (res (composeICMP6 g sm dm (UInt8.ofNat ttl) si di (encodeICMPEcho 128 0 id seq d)))
+  | "compose-udp4", [po, sm, dm, ttl, si, di, sp, dp, pl] => do
+    let g ← pool po; let sm ← fromHex sm; let dm ← fromHex dm; let ttl ← ttl.toNat?
+    let si ← fromHex si; let di ← fromHex di; let sp ← sp.toNat?; let dp ← dp.toNat?; let pl ← fromHex pl
+    some (res (sendUDP4 g sm dm (UInt8.ofNat ttl) si di sp dp pl))
+  | "compose-udp6", [po, sm, dm, ttl, si, di, sp, dp, pl] => do
+    let g ← pool po; let sm ← fromHex sm; let dm ← fromHex dm; let ttl ← ttl.toNat?
+    let si ← fromHex si; let di ← fromHex di; let sp ← sp.toNat?; let dp ← dp.toNat?; let pl ← fromHex pl
+    some (res (composeUDP6 g sm dm (UInt8.ofNat ttl) si di sp dp pl))
   | "send", [k, po, sm, dm, ttl, si, di, sp, dp, pl] => do
     let g ← pool po; let sm ← fromHex sm; let dm ← fromHex dm; let ttl ← ttl.toNat?
     let si ← fromHex si; let di ← fromHex di; let sp ← sp.toNat?; let dp ← dp.toNat?; let pl ← fromHex pl
@@ -47,6 +71,9 @@ def handle (cmd : String) (args : List String) : Option String :=
     if k == "icmp4" then some (res (sendICMP4 g hm dm si di msg))
     else if k == "icmp6" then some (res (sendICMP6 g hm dm si di msg))
     else none
+  | "append", ["ether", po, et, plen, pcap] => do
+    let g ← pool po; let et ← et.toNat?; let plen ← plen.toNat?; let pcap ← pcap.toNat?
+    some (outcomeStr (fun (n : Nat) => toString n) (etherAppendPayloadLen g et plen pcap))
   | "msg", ["echo", t, c, id, seq, d] => do
     let t ← t.toNat?; let c ← c.toNat?; let id ← id.toNat?; let seq ← seq.toNat?; let d ← fromHex d
     some (toHex (encodeICMPEcho (UInt8.ofNat t) (UInt8.ofNat c) id seq d))
